@@ -65,7 +65,8 @@ static int iterConv(MPT_INTERFACE(convertable) *conv, MPT_TYPE(type) type, void 
 		if (ret < 0) {
 			return ret;
 		}
-		return 's';
+		/* nothing converted (empty text), target was not assigned */
+		return ret ? 's' : 0;
 	}
 	return 0;
 }
